@@ -3,6 +3,7 @@
 //! specification assigns to the bytes.
 
 use crate::fam::{self, Family, V3, V5};
+use crate::gen::GenCfg;
 use crate::model::{self, fnv, hex_short, normalize, serialize};
 use crate::mutate;
 use crate::refdec::{self, Reject};
@@ -143,13 +144,90 @@ fn case_bytes<F: Family>(input: &Input, ctx: &mut Ctx) -> CaseResult {
     Ok(())
 }
 
+/// Histories: a valid packet A is decoded first, then a frame B in which one string field was
+/// replaced by a string taken from A (so a filter with wildcards may turn up as a topic name or
+/// response topic, a topic name as a filter, ...). Both must be decided like the reference decoder
+/// decides them: acceptance must not depend on what the thread decoded before.
+fn case_history<F: Family>(input: &Input, ctx: &mut Ctx) -> CaseResult {
+    history_core::<F>(input, ctx, 1)
+}
+
+/// oracles: 1 = C04 (reference decoder), 2 = C06 (front-ends agree), 4 = C12 (type invariants)
+pub fn history_core<F: Family>(input: &Input, ctx: &mut Ctx, oracles: u8) -> CaseResult {
+    let mut t = Tape::new(input.tape());
+    // A: a packet that carries topic strings
+    let ta = [2usize, 7, 9, 0][t.pick(4)];
+    let a = F::gen_of_type(&mut t, &GenCfg::SMALL, ta).map_err(|e| Violation::new(e.0))?;
+    let wa = F::project(&a);
+    let a_bytes = serialize(&wa).ok_or_else(|| Violation::new("MQV-INTERNAL: cannot serialise"))?;
+    let mut strings: Vec<Vec<u8>> = Vec::new();
+    {
+        let mut wa2 = wa.clone();
+        for (path, kind) in mutate::fields(&wa) {
+            if kind != mutate::SKind::Binary && kind != mutate::SKind::ProtoName {
+                if let Some(f) = mutate::field_mut(&mut wa2, &path) {
+                    strings.push(f.clone());
+                }
+            }
+        }
+    }
+    // B: another packet with one string replaced by one of A's
+    let tb = [2usize, 0, 7, 9, 2, 0][t.pick(6)];
+    let b = F::gen_of_type(&mut t, &GenCfg::SMALL, tb).map_err(|e| Violation::new(e.0))?;
+    let mut wb = F::project(&b);
+    let fields: Vec<(mutate::FPath, mutate::SKind)> = mutate::fields(&wb).into_iter().filter(|(_, k)| *k != mutate::SKind::Binary && *k != mutate::SKind::ProtoName).collect();
+    let mut swapped = "none";
+    if !fields.is_empty() && !strings.is_empty() {
+        // prefer the topic-like fields of B
+        let topicish: Vec<&(mutate::FPath, mutate::SKind)> = fields.iter().filter(|(_, k)| matches!(k, mutate::SKind::TopicName | mutate::SKind::ResponseTopic | mutate::SKind::Filter)).collect();
+        let (path, kind) = if !topicish.is_empty() && t.chance(3, 4) { topicish[t.pick(topicish.len())].clone() } else { fields[t.pick(fields.len())].clone() };
+        let src = strings[t.pick(strings.len())].clone();
+        if let Some(f) = mutate::field_mut(&mut wb, &path) {
+            *f = src;
+            swapped = match kind {
+                mutate::SKind::TopicName => "into-topic-name",
+                mutate::SKind::ResponseTopic => "into-response-topic",
+                mutate::SKind::Filter => "into-filter",
+                _ => "into-plain-string",
+            };
+        }
+    }
+    let b_bytes = serialize(&wb).ok_or_else(|| Violation::new("MQV-INTERNAL: cannot serialise"))?;
+    // decode A on every front-end (this is what primes any per-thread state), then decide B, then A again
+    let _ = F::decode(&a_bytes);
+    let _ = fam::dec_async::<F>(&a_bytes);
+    let _ = fam::dec_poll::<F>(&a_bytes);
+    let after = |v: Violation| Violation::new(format!("after decoding {} on the same thread: {}", hex_short(&a_bytes, 48), v.msg));
+    let mut cb: Option<String> = Some(if refdec::refdec(F::FAM, &b_bytes).is_ok() { "accept".to_string() } else { "reject".to_string() });
+    if oracles & 1 != 0 {
+        decide::<F>(&a_bytes, ctx)?;
+        cb = decide::<F>(&b_bytes, ctx).map_err(after)?;
+        ctx.more_evals(1);
+    }
+    if oracles & 2 != 0 {
+        crate::checks::c06::agree::<F>(&b_bytes, "history", ctx).map_err(after)?;
+    }
+    if oracles & 4 != 0 {
+        crate::checks::c12::all_fronts::<F>(&b_bytes, "history", ctx).map_err(after)?;
+    }
+    if let Some(c) = cb {
+        ctx.label(&format!("history:{}:{}", swapped, if c == "accept" { "accept" } else { "reject" }));
+        if ctx.nontrivial(fnv(&b_bytes) ^ fnv(&a_bytes)) {
+            ctx.sample(|| format!("{} first {} then {} [{}] -> {}", F::FAM.name(), hex_short(&a_bytes, 24), hex_short(&b_bytes, 32), swapped, c));
+        }
+    }
+    Ok(())
+}
+
+pub const SUB_H3: Sub = Sub { name: "c04.history.v3", f: case_history::<V3> };
+pub const SUB_H5: Sub = Sub { name: "c04.history.v5", f: case_history::<V5> };
 pub const SUB_V3: Sub = Sub { name: "c04.grammar.v3", f: case::<V3> };
 pub const SUB_V5: Sub = Sub { name: "c04.grammar.v5", f: case::<V5> };
 pub const SUB_B3: Sub = Sub { name: "c04.frame.v3", f: case_bytes::<V3> };
 pub const SUB_B5: Sub = Sub { name: "c04.frame.v5", f: case_bytes::<V5> };
 
 pub fn subs() -> Vec<Sub> {
-    vec![SUB_V3, SUB_V5, SUB_B3, SUB_B5]
+    vec![SUB_V3, SUB_V5, SUB_B3, SUB_B5, SUB_H3, SUB_H5]
 }
 
 /// hand-assembled frames: the defects repaired by 284f652 / 2d36388 and the pinned leniencies
@@ -178,6 +256,13 @@ pub fn run(env: &mut Env) -> RunResult {
     let n = env.tier.sel(40_000, 500_000);
     env.run_tapes(SUB_V3, n, 160)?;
     env.run_tapes(SUB_V5, n * 2, 260)?;
+    env.run_tapes(SUB_H3, n / 4, 300)?;
+    env.run_tapes(SUB_H5, n / 2, 400)?;
+    env.require("c04.history.v5", "history:into-response-topic:reject");
+    env.require("c04.history.v5", "history:into-topic-name:reject");
+    env.require("c04.history.v5", "history:into-filter:reject");
+    env.require("c04.history.v3", "history:into-topic-name:reject");
+    env.require("c04.history.v3", "history:into-filter:accept");
     use Reject::*;
     let v3_classes = [HeaderType, HeaderFlags, PublishQos, VarIntTooLong, Truncated, Trailing, BodyLength, ProtocolNameLevel, ConnectFlags, WillQos, ConnackFlags, ReturnCode, ZeroPid, RequestedQos, EmptyList, Utf8, TopicName, TopicFilter];
     for c in v3_classes {
